@@ -25,6 +25,7 @@ inductive CState
   | init                -- INIT / REQ_LINE_RECEIVING / REQ_HEADERS_RECEIVING ("reading-head")
   | headersReceived
   | headersProcessed
+  | continueSending     -- "100 Continue" is being written (nothing is read meanwhile)
   | bodyReceiving       -- "reading-body"
   | bodyReceived
   | footersReceiving
@@ -91,6 +92,13 @@ def keepalivePossible (s : St) (closeHdr : Bool) : KA :=
     (if lookupToken s.head.fields hdrConnection tokKeepAlive then .use else .mustClose)
   else .use
 
+/-- `need_100_continue` -/
+def need100Continue (s : St) : Bool :=
+  s.head.http11 && s.remaining != 0 &&
+    (match lookup s.head.fields hdrExpect with
+     | some v => eqCI v tok100Continue
+     | none => false)
+
 /-- `transmit_error_response_len`: second error ⇒ CLOSED directly; otherwise the read buffer is
     dropped, the error reply is queued, `keepalive = MUST_CLOSE`, headers are built and sent. -/
 def errorReply (s : St) (status : Nat) : St :=
@@ -154,7 +162,12 @@ def idleStep (lvl : Int) (app : App) (s : St) : Option St :=
       -- MHD_queue_response in HEADERS_PROCESSED: "response was queued early"
       some { s1 with resp := some (status, ch), discard := true, remaining := 0, state := .startReply }
     | .cont _ _ =>
-      some { s1 with state := if s1.remaining = 0 then .fullReqReceived else .bodyReceiving }
+      -- no response queued: "100 Continue" is due only if nothing of the body has arrived yet.
+      -- (The interim reply itself is not recorded as an event: it is not a framing observable.)
+      some { s1 with state := if s1.remaining = 0 then .fullReqReceived
+                              else if need100Continue s1 && s1.buf.isEmpty then .continueSending
+                              else .bodyReceiving }
+  | .continueSending => some { s with state := .bodyReceiving }
   | .bodyReceiving =>
     if s.remaining = 0 then some { s with state := .bodyReceived } else bodyStep lvl s
   | .bodyReceived =>
@@ -183,8 +196,9 @@ def idleStep (lvl : Int) (app : App) (s : St) : Option St :=
   | .outOfDomain => none
 
 def rank : CState → Nat
-  | .headersReceived => 12
-  | .headersProcessed => 11
+  | .headersReceived => 13
+  | .headersProcessed => 12
+  | .continueSending => 11
   | .bodyReceiving => 10
   | .bodyReceived => 9
   | .footersReceiving => 8
